@@ -137,6 +137,9 @@ func readerCfg(r *reader.Reader) any {
 	return M{"format": string(o.Format), "cells": cells}
 }
 
+const autoSPDX = `{"spdxVersion":"SPDX-2.3","dataLicense":"CC0-1.0","SPDXID":"SPDXRef-DOCUMENT","name":"d","documentNamespace":"https://example.com/d","creationInfo":{"created":"2023-01-01T00:00:00Z","creators":["Tool: t"]},"packages":[{"SPDXID":"SPDXRef-a","name":"a","downloadLocation":"NOASSERTION"}]}`
+const autoCDX = `{"bomFormat":"CycloneDX","specVersion":"1.5","version":1,"components":[{"bom-ref":"x","type":"library","name":"x"}]}`
+
 var tinyDoc = func() *sbom.Document {
 	d := sbom.NewDocument()
 	d.Metadata.Id = "urn:x"
@@ -291,6 +294,14 @@ func ExecOpts(op M) (res any) {
 					}
 					eff = e
 				}
+			} else if !isWriter && i < len(rs) && sm["auto"] != nil {
+				// ParseStream with auto-detection of a real document; only the configurations after it matter
+				doc := autoSPDX
+				if asStr(sm["auto"]) == "cdx" {
+					doc = autoCDX
+				}
+				_, _ = rs[i].ParseStream(bytes.NewReader([]byte(doc)))
+				eff = M{"format": ""}
 			} else if !isWriter && i < len(rs) {
 				co := &reader.Options{Format: formats.Format(asStr(sm["f"]))}
 				if sm["cell"] != nil {
@@ -431,7 +442,7 @@ func optsGen(g *G, tier string) []M {
 				if isWriter {
 					var cell any
 					if g.Chance(0.5) {
-						cell = []any{[]any{"Indent", strconv.Itoa(g.Pick2([]int{1, 3, 5}))}}
+						cell = []any{[]any{"Indent", strconv.Itoa(g.Pick2([]int{0, 0, 1, 3, 5}))}}
 					}
 					st := M{"s": "call", "i": float64(i), "k": 0.0, "f": g.Pick([]string{"", string(formats.SPDX23JSON), string(formats.CDX15JSON)}), "cell": cell}
 					if g.Chance(0.5) {
@@ -444,7 +455,12 @@ func optsGen(g *G, tier string) []M {
 					if g.Chance(0.5) {
 						cell = []any{[]any{recKey, g.Pick([]string{"c1", "c2"})}}
 					}
-					steps = append(steps, M{"s": "call", "i": float64(i), "k": 2.0, "f": "verif/rec", "cell": cell})
+					if g.Chance(0.4) {
+						// a plain parse with detection: it must leave the reader's configuration alone
+						steps = append(steps, M{"s": "call", "i": float64(i), "k": 2.0, "f": "", "cell": nil, "auto": g.Pick([]string{"spdx", "cdx"})})
+					} else {
+						steps = append(steps, M{"s": "call", "i": float64(i), "k": 2.0, "f": "verif/rec", "cell": cell})
+					}
 				}
 			}
 		}
@@ -508,6 +524,19 @@ func oracleOpts(op M, res any, exec func(M) any) []Finding {
 		b, _ := rl[si].(M)
 		if sm != nil && a != nil && b != nil && asStr(sm["s"]) == "call" && !Equal(Normalize(a["cfgs"]), Normalize(b["cfgs"])) {
 			out = append(out, Finding{"C18", fmt.Sprintf("a call with its own options (step %d) changed the configuration of an instance: %s -> %s", si, js(a["cfgs"]), js(b["cfgs"]))})
+		}
+	}
+	// the render options of a call override the writer's for that call (observable in SPDX output)
+	for si := 0; si < len(steps) && si < len(rl); si++ {
+		sm, _ := steps[si].(M)
+		b, _ := rl[si].(M)
+		if sm == nil || b == nil || asStr(sm["s"]) != "call" || sm["cell"] == nil || asStr(op["kind"]) != "writer" {
+			continue
+		}
+		if e, ok := b["eff"].(M); ok && asStr(e["format"]) == string(formats.SPDX23JSON) {
+			if got, want := cellGet(e["cell"], "Indent", "?"), cellGet(sm["cell"], "Indent", "0"); got != want {
+				out = append(out, Finding{"C18", fmt.Sprintf("step %d: the call asked for indent %s, the output is indented by %s: the options of the call did not override the writer's", si, want, got)})
+			}
 		}
 	}
 	// other instances are untouched by a constructor or by a write through one instance
